@@ -221,7 +221,7 @@ func runC14(c *Ctx) {
 		}
 		for _, a := range deletes {
 			// a delete either removes the transaction from its sender list here, or the sender list already dropped it (its ID came back from the per-sender Add)
-			keyT := ff.Term(a.(*ssa.Call).Common().Args[1]).String()
+			keyT := ff.Term(ArgK(a.(*ssa.Call), 1)).String()
 			fromList := strings.Contains(keyT, "addressTransactions).Add(")
 			if fromList {
 				continue
